@@ -8,18 +8,25 @@ import vlib
 LEVEL = "model_checking"
 MANIFEST = dict(
     category=LEVEL, design_ref="DESIGN.md §5 C17",
-    text="Syncer.tla (finder light/full scan, hash fetcher, block fetcher scheduling with retry/bad peers, block processor connect "
-         "queue, self-message FIFO, stale messages, stop requests, timeouts; one action per message handled by the actor) is "
-         "model-checked exhaustively for all chain pairs within bounds (invariants: ascending contiguous delivery from the ancestor, "
-         "common/highest ancestor, truthful outcome, actor never blocked, restartable; liveness Terminates under fairness on a small "
-         "instance). Every transition of a small instance and simulated behaviours of larger ones are replayed on the real Syncer "
-         "with the harness as requester/mailbox: after each message the outstanding requests, self messages, AddBlock sequence, "
-         "ancestor, running flag and notifications are compared with the model, the property predicates are evaluated on every "
-         "output, each behaviour is then run to completion and a further session must start and succeed.",
-    note="local chain service and peers are harness stubs (AddBlock: known->ok, orphan->error, longer branch->reorg); fetch-task "
-         "timeouts are triggered by back-dating FetchTask.started, finder/hash-fetcher timeouts by short real timers; anchors use the "
-         "model's Skip/MaxAnchors (the chain package's constants 16/32 are bound by the long-chain scenarios)",
-    technique="TLA+/TLC exhaustive model + liveness; replay of every TLC transition (edge cover) and of simulated behaviours into the real syncer")
+    text="Syncer.tla (one action per message handled by the syncer actor: finder light/full scan, hash fetcher, block fetcher scheduling "
+         "with retry queue / bad peers / pending-connect limit, block processor connect queue, FIFO of the goroutines' own messages, "
+         "stale messages of earlier sessions, stop requests, timeouts) is model-checked exhaustively for all chain pairs within bounds: "
+         "ascending contiguous delivery from the ancestor, common/highest ancestor, truthful notification, actor never blocked, "
+         "restartable; liveness Terminates under fairness on a small instance. Every transition of two small instances (edge covers) and "
+         "simulated behaviours of a larger one are replayed message by message on the real syncer.Syncer with the harness as "
+         "requester and mailbox: outstanding requests, self messages, AddBlock sequence, ancestor, running flag, sequence number and "
+         "notifications are compared with the model after every message; the property predicates (gap/duplicate/non-child delivery, "
+         "ancestor on both chains, false success, missing notification, blocked actor, no termination, restart) are evaluated on "
+         "every output; every behaviour is completed honestly and followed by a fresh session. ChunkRecv.tla (p2p response "
+         "receivers) is checked and replayed the same way. End-to-end scenarios run the Syncer against real chain.ChainService "
+         "instances (real anchors, findAncestor, addBlock/reorg, chains > 512 blocks). The schedules in which TLC sees the actor "
+         "block forever are replayed on the real code.",
+    note="replay: chain service and peers are harness stubs, anchors with the model's Skip/MaxAnchors; fetch-task timeouts by "
+         "back-dating FetchTask.started, finder/hash-fetcher timeouts by short real timers; message-level interleavings only "
+         "(helper goroutines quiescent between messages); sync peer honest-or-failing for ancestor/hash queries; e2e scenarios and "
+         "simulated behaviours are sampled",
+    technique="TLA+/TLC exhaustive model + liveness; replay of every TLC transition (edge cover), of simulated behaviours and of TLC "
+              "counterexamples into the real syncer; seeded end-to-end driver with the property predicates")
 SPEC_DIR = os.path.join(vlib.SPEC, "sync")
 
 GEN_PARAMS = dict(NPeers=2, ChunkSize=2, HashReq=2, MaxTasks=2, MaxPendingConn=2, MaxFail=2, Skip=2, MaxAnchors=2)
